@@ -9,6 +9,8 @@
     parse <delim> <trim> <keep> <hexbytes>
     sniff <hexbytes> [D …]
     var  <delim> <hdr> <trim> <oidx> <typing> <hexbytes> [D …]
+    var2 csv <delim> <hdr> <trim> <keep> <oidx> <hook> <typing> <data|ctor> <hexbytes> [D …]
+    var2 xrff <hook> <typing> <doc tokens …> [D …]
     old  csv|xrff …                               the same with `guards := false` (code before the fixes)
 
   Numbers: the model is parametric in `is_number` / `stod` / `stoi`.  The driver receives their
@@ -295,6 +297,56 @@ def answerVar (main : List String) (dict : Dict) : String :=
     | _, _ => "bad-op"
   | _ => "bad-op"
 
+/-- `ok S n {v name cat rows {asked value} | k name cat value} P categories variables classes C n {name dom nstates}` -/
+def symsStr (df : DF Nat) (syms : List TermSym) : M String := do
+  let parts ← syms.mapM (fun s => match s with
+    | .var v => do
+      let vals ← (df.examples.take 3).mapM (fun e => do
+        let x ← evalVar v e
+        pure s!" {v.var} {valStr x}")
+      let cat := match v.category with | some c => toString c | none => "u"
+      pure (s!" v {hex v.name} {cat} {vals.length}" ++ String.join vals)
+    | .const name val c =>
+      let cat := match c with | some c => toString c | none => "u"
+      pure s!" k {hex name} {cat} s{hex val}")
+  let nvars := match df.examples with | [] => 0 | e :: _ => e.input.length
+  let cols := df.cols.map (fun c => s!" {hex c.name} {domNum c.dom} {c.states.length}")
+  pure (s!"ok S {syms.length}" ++ String.join parts ++
+    s!" P {ssetCategories syms} {nvars} {df.classes.length} C {df.cols.length}" ++ String.join cols)
+
+def answerVar2 (main : List String) (dict : Dict) : String :=
+  match main with
+  | ["csv", delim, hdr, trim, keep, oidx, filt, typing, _via, bytes] =>
+    match makeParams delim hdr trim keep oidx, makeHook filt, unhex bytes with
+    | some p, some f, some b =>
+      let p := { p with hook := f }
+      let ms := missing dict (csvCells p (splitLines b))
+      if !ms.isEmpty then needStr ms
+      else
+        let r : M String := do
+          let df ← readCsv {} (oracle dict) p b
+          let syms ← setupSymbols {} (typing == "1") df.cols
+          symsStr df syms
+        match r with
+        | .ok s => s
+        | .error e => errStr e
+    | _, _, _ => "bad-op"
+  | "xrff" :: filt :: typing :: docToks =>
+    match makeHook filt, parseDoc docToks with
+    | some f, some doc =>
+      let ms := missing dict (docCells f doc)
+      if !ms.isEmpty then needStr ms
+      else
+        let r : M String := do
+          let (df, _) ← readXrffH {} (oracle dict) f doc
+          let syms ← setupSymbols {} (typing == "1") df.cols
+          symsStr df syms
+        match r with
+        | .ok s => s
+        | .error e => errStr e
+    | _, _ => "bad-op"
+  | _ => "bad-op"
+
 def answer (line : String) : String :=
   let toks := (line.trimAscii.toString.splitOn " ").filter (· != "")
   let (main, dtoks) := splitDict toks
@@ -309,6 +361,7 @@ def answer (line : String) : String :=
     | "old" :: "csv" :: rest => answerCsv { guards := false } rest dict
     | "old" :: "xrff" :: rest => answerXrff { guards := false } rest dict
     | "var" :: rest => answerVar rest dict
+    | "var2" :: rest => answerVar2 rest dict
     | ["parse", delim, trim, keep, bytes] =>
       match delim.toNat?, unhex bytes with
       | some d, some b =>
